@@ -314,7 +314,242 @@ fn malformed(ctx: &Ctx) {
     }
 }
 
+fn rnd(s: &mut u64) -> u64 {
+    *s ^= *s << 13;
+    *s ^= *s >> 7;
+    *s ^= *s << 17;
+    *s
+}
+
+/// Larger graphs sampled pseudo-randomly (deterministic seeds): 5..=9 nodes, random edges under a random numbering (so edges go in both
+/// index directions), multi-edges, sometimes a cycle, up to two post-state readers, several solutions with different predicates.
+fn sampled(ctx: &Ctx) {
+    let count = if ctx.thorough { 20_000u64 } else { 2_500 };
+    for seed in 1..=count {
+        let id = format!("sampled/{seed}");
+        if !ctx.want(&id) {
+            continue;
+        }
+        let mut s = seed.wrapping_mul(0x9E3779B97F4A7C15) | 1;
+        let nsol = 1 + (rnd(&mut s) % 3) as usize;
+        let mut preds = BTreeMap::new();
+        let mut progs = BTreeMap::new();
+        let mut solutions = Vec::new();
+        let mut pre = PreState::default();
+        let mut desc = String::new();
+        let mut prog_id = 1u8;
+        for si in 0..nsol {
+            let n = 5 + (rnd(&mut s) % 5) as usize;
+            // a random order of the nodes: edges go from earlier to later positions in this order (acyclic), numbering is arbitrary
+            let mut order: Vec<usize> = (0..n).collect();
+            for i in (1..n).rev() {
+                let j = (rnd(&mut s) % (i as u64 + 1)) as usize;
+                order.swap(i, j);
+            }
+            let density = 15 + rnd(&mut s) % 40;
+            let mut ch: Vec<Vec<u16>> = vec![vec![]; n];
+            for a in 0..n {
+                for b in a + 1..n {
+                    if rnd(&mut s) % 100 < density {
+                        ch[order[a]].push(order[b] as u16);
+                        if rnd(&mut s) % 10 == 0 {
+                            ch[order[a]].push(order[b] as u16); // multi-edge
+                        }
+                    }
+                }
+            }
+            if rnd(&mut s) % 12 == 0 {
+                // close a cycle
+                let (a, b) = (order[n - 1], order[(rnd(&mut s) % (n as u64 - 1)) as usize]);
+                ch[a].push(b as u16);
+            }
+            for c in ch.iter_mut() {
+                // children lists in arbitrary (not sorted) order
+                if c.len() > 1 && rnd(&mut s) % 2 == 0 {
+                    c.reverse();
+                }
+            }
+            let contract = ca(0xC0 + (si % 2) as u8);
+            let pred_addr = ca(0xA0 + si as u8);
+            let base = prog_id;
+            let addr_of = |i: usize| ca(base + i as u8);
+            let mut pred = encode(&ch, rnd(&mut s) % 2 == 0);
+            for (i, nd) in pred.nodes.iter_mut().enumerate() {
+                nd.program_address = addr_of(i);
+            }
+            prog_id += n as u8;
+            // expected inputs under the reference semantics when every non-leaf is a producer; readers add a block to their memory
+            let readers: Vec<usize> = if rnd(&mut s) % 3 == 0 { vec![] } else { (0..1 + rnd(&mut s) % 2).map(|_| (rnd(&mut s) % n as u64) as usize).collect() };
+            let key = vec![7 + si as Word];
+            pre.0.entry(contract.clone()).or_default().insert(key.clone(), vec![9]);
+            let mutation = Mutation { key: key.clone(), value: vec![40 + si as Word, 41] };
+            let acyclic = refsem::graph(&pred).is_some();
+            if acyclic {
+                let mut parents = vec![vec![]; n];
+                for (a, cc) in ch.iter().enumerate() {
+                    for &b in cc {
+                        parents[b as usize].push(a);
+                    }
+                }
+                for q in parents.iter_mut() {
+                    q.sort();
+                }
+                let mut outs: Vec<Option<(Words, Words)>> = vec![None; n];
+                let mut left = n;
+                while left > 0 {
+                    for i in 0..n {
+                        if outs[i].is_some() || !parents[i].iter().all(|p| outs[*p].is_some()) {
+                            continue;
+                        }
+                        let mut st = Vec::new();
+                        let mut m = Vec::new();
+                        for p in &parents[i] {
+                            let (ps, pm) = outs[*p].clone().unwrap();
+                            st.extend(ps);
+                            m.extend(pm);
+                        }
+                        let is_reader = readers.contains(&i);
+                        let block = layout(&[mutation.value.clone()], m.len(), 4);
+                        let mut ops = Vec::new();
+                        if is_reader {
+                            ops.extend(post_read(&key, 1, 4, m.len(), None));
+                        }
+                        if ch[i].is_empty() {
+                            let mut es = st.clone();
+                            let mut em = m.clone();
+                            if is_reader {
+                                es.extend(&block);
+                                em.extend(&block);
+                            }
+                            ops.extend(constraint(&es, &em));
+                        } else {
+                            if is_reader {
+                                ops.push(push(4));
+                                ops.push(asm::Stack::Drop.into());
+                                m.extend(&block);
+                            }
+                            ops.extend(producer(i));
+                        }
+                        // the stack / memory limits bound how much fan-in a case may have: oversized cases simply fail in both
+                        progs.insert(addr_of(i), bytes(ops));
+                        st.push(100 + i as Word);
+                        m.push(200 + i as Word);
+                        outs[i] = Some((st, m));
+                        left -= 1;
+                    }
+                }
+            } else {
+                for i in 0..n {
+                    progs.insert(addr_of(i), bytes(vec![push(1)]));
+                }
+            }
+            preds.insert(pred_addr.clone(), pred);
+            solutions.push(one_solution(pred_addr, contract, vec![mutation]));
+            desc.push_str(&format!("[solution {si}: children {:?} readers {:?} acyclic {acyclic}] ", ch, readers));
+        }
+        // two solutions of the same contract must not declare the same key: keys differ per solution index by construction
+        let case = Case { pre, set: SolutionSet { solutions }, preds, progs };
+        run_case(ctx, &id, "verdict == reference on larger sampled graphs (arbitrary numbering, multi-edges, cycles, post-state readers, several solutions)", &case, || desc.clone());
+    }
+}
+
+/// Longer post-state ranges: 5..=9 keys of 1..=3 words incl. double carries, several contracts, pre- and post-state reads in one program.
+fn long_ranges(ctx: &Ctx) {
+    let starts: Vec<Words> = vec![vec![3], vec![0, Word::MAX - 3], vec![1, Word::MAX, Word::MAX - 2], vec![Word::MAX, Word::MAX, Word::MAX - 6], vec![-1, Word::MAX, Word::MAX - 1], vec![Word::MAX - 4]];
+    let count = if ctx.thorough { 6000u64 } else { 900 };
+    for seed in 1..=count {
+        let id = format!("long-range/{seed}");
+        if !ctx.want(&id) {
+            continue;
+        }
+        let mut s = seed.wrapping_mul(0xD1B54A32D192ED03) | 1;
+        let start = starts[(rnd(&mut s) % starts.len() as u64) as usize].clone();
+        let nkeys = 5 + (rnd(&mut s) % 5) as usize;
+        let mut keys = vec![start.clone()];
+        while keys.len() < nkeys {
+            match refsem::next_key(keys.last().unwrap()) {
+                Some(k) => keys.push(k),
+                None => break,
+            }
+        }
+        let extern_read = rnd(&mut s) % 3 == 0;
+        let target = if extern_read { ca(0xC1) } else { ca(0xC0) };
+        let mut pre = PreState::default();
+        let mut muts = Vec::new();
+        let mut expect_post: Vec<Words> = Vec::new();
+        let mut expect_pre: Vec<Words> = Vec::new();
+        for (i, k) in keys.iter().enumerate() {
+            let pv: Words = match rnd(&mut s) % 3 { 0 => vec![], 1 => vec![10 + i as Word], _ => vec![10 + i as Word, -1, 3] };
+            if !pv.is_empty() {
+                pre.0.entry(target.clone()).or_default().insert(k.clone(), pv.clone());
+            }
+            expect_pre.push(pv.clone());
+            match rnd(&mut s) % 4 {
+                0 => {
+                    muts.push(Mutation { key: k.clone(), value: vec![] });
+                    expect_post.push(vec![]);
+                }
+                1 => {
+                    let v = vec![20 + i as Word, 30];
+                    muts.push(Mutation { key: k.clone(), value: v.clone() });
+                    expect_post.push(v);
+                }
+                _ => expect_post.push(pv),
+            }
+        }
+        // a third contract with mutations of the same keys must not leak into the read
+        let noise: Vec<Mutation> = keys.iter().take(2).map(|k| Mutation { key: k.clone(), value: vec![666] }).collect();
+        let room = 2 * nkeys + 3 * nkeys;
+        // one program: post-state read at 0, then pre-state read after it; both blocks are compared
+        let mut ops = post_read(&start, nkeys, room, 0, if extern_read { Some(&target) } else { None });
+        let block_post = layout(&expect_post, 0, room);
+        ops.extend(expect_stack(&block_post));
+        ops.push(asm::Stack::Pop.into());
+        // pre-state read of the same range into a second block
+        ops.push(push(room as Word));
+        ops.push(asm::Memory::Alloc.into());
+        ops.push(asm::Stack::Pop.into());
+        if extern_read {
+            for w in essential_types::convert::word_4_from_u8_32(target.0) {
+                ops.push(push(w));
+            }
+        }
+        for w in &start {
+            ops.push(push(*w));
+        }
+        ops.push(push(start.len() as Word));
+        ops.push(push(nkeys as Word));
+        ops.push(push(room as Word));
+        ops.push(if extern_read { asm::StateRead::KeyRangeExtern.into() } else { asm::StateRead::KeyRange.into() });
+        ops.push(push(room as Word));
+        ops.push(push(room as Word));
+        ops.push(asm::Memory::LoadRange.into());
+        ops.extend(expect_stack(&layout(&expect_pre, room, room)));
+        let mut progs = BTreeMap::new();
+        progs.insert(ca(1), bytes(ops));
+        progs.insert(ca(2), bytes(vec![push(1)]));
+        let leaf = |a: u8| Node { edge_start: u16::MAX, program_address: ca(a) };
+        let mut preds = BTreeMap::new();
+        preds.insert(ca(0xA0), Predicate { nodes: vec![leaf(1)], edges: vec![] });
+        preds.insert(ca(0xA1), Predicate { nodes: vec![leaf(2)], edges: vec![] });
+        let mut solutions = if extern_read {
+            vec![one_solution(ca(0xA0), ca(0xC0), vec![]), one_solution(ca(0xA1), ca(0xC1), muts.clone())]
+        } else {
+            vec![one_solution(ca(0xA0), ca(0xC0), muts.clone())]
+        };
+        solutions.push(one_solution(ca(0xA1), ca(0xC2), noise));
+        if rnd(&mut s) % 2 == 0 {
+            solutions.reverse();
+        }
+        let case = Case { pre, set: SolutionSet { solutions }, preds, progs };
+        run_case(ctx, &id, "post-state range read == per-key overlay (long ranges, multi-word keys with carries, deletions, other contracts' mutations invisible); pre-state reads never observe mutations",
+            &case, || format!("start key {:?}, {} keys ({} exist), extern={extern_read}, mutations {:?}", start, nkeys, keys.len(), muts));
+    }
+}
+
 pub fn run(ctx: &Ctx) {
+    sampled(ctx);
+    long_ranges(ctx);
     malformed(ctx);
     graphs(ctx);
     overlay(ctx);
